@@ -571,6 +571,15 @@ def replay_native(h, repo, hdir, tdir, logdir, pid, res):
             # the path of the counterexample: that is not a reproduction
             infra = any("concrete_playback.rs" in loc for loc, _ in panics)
             failed = bool(re.search(r"test result: FAILED", out)) and rc != 0 and bool(panics) and not infra
+            if failed and info.get("stubs"):
+                # Kani's playback does not apply #[kani::stub]: the native run of a harness that uses
+                # stand-ins takes the real callee instead. It counts as a reproduction only if it fails
+                # with the very check the solver reported, not with some other assertion of the harness
+                # that presupposes the stand-in (recorded call counters etc.)
+                descs = [f["description"] for f in res["failed"]]
+                msgs = " ".join(msg for _, msg in panics)
+                if not any(d and (d in msgs or d.replace("assertion failed: ", "") in msgs) for d in descs):
+                    failed = False
             outs.append({"profile": "release" if profile else "dev", "test": t, "rc": rc, "test_failed": failed,
                          "panic": re.findall(r"panicked at [^\n]*\n[^\n]*", out)[:3]})
             if failed:
